@@ -367,6 +367,16 @@ class IkeSa(object):
                            ''.format(self.spi_i.hex(), self.spi_r.hex()))
             return None
 
+        # once keys exist, only messages protected by a verified Encrypted payload are processed. The only exception
+        # is a retransmitted IKE_SA_INIT request, which gets the stored IKE_SA_INIT response again
+        if self.peer_crypto is not None and not message.is_protected:
+            if (message.is_request and message.exchange_type == Message.Exchange.IKE_SA_INIT
+                    and message.message_id == 0 and self.peer_msg_id == 1):
+                self.log_warning('Retransmission detected. Sending last sent message')
+                return self.last_sent_response_data
+            self.log_error('Received an unprotected message for an IKE_SA that has keys. Ignoring')
+            return None
+
         # receiving any kind of message from the peer resets the DPD timer
         self.start_dpd_at = time.time() + self.configuration.dpd
         if message.is_request:
